@@ -21,6 +21,11 @@ BODY5 = (('sub', 1, (('op', 'X', 0, None),)), ('sub', 1, (('op', 'R', 1, None),)
 BODY3 = (('op', 'B', 0, None), ('op', 'M', 1, None))   # a root of fixed length in front of a measurement (global length); repeated
 
 
+# a non-initial start state: a gate, a registry-length wait behind it (its own length does not depend on the global durations,
+# its start does), a repeated block
+PRELUDE = (('add', 'X', 0), ('add', 'Wreg', 0), ('sub', 2, BODY1))
+
+
 def enabled(prefix):
     """Mutations enabled after a prefix (relation targets range over live entries; exit only inside an override)."""
     live = []      # indices of entries that can be referred to
@@ -61,19 +66,21 @@ def enabled(prefix):
     return out
 
 
-def mutation_sequences(L):
+def mutation_sequences(L, start=()):
+    L = L + len(start)
+
     def rec(prefix):
         if len(prefix) == L:
             yield tuple(prefix)
             return
         for ev in enabled(prefix):
             yield from rec(prefix + [ev])
-    return rec([])
+    return rec(list(start))
 
 
-def placements(n_mut, k, kinds):
-    """All ways to insert k observations: positions 1..n_mut (non-decreasing), every kind."""
-    for pos in itertools.combinations_with_replacement(range(1, n_mut + 1), k):
+def placements(n_mut, k, kinds, first=1):
+    """All ways to insert k observations: positions first..n_mut (non-decreasing), every kind."""
+    for pos in itertools.combinations_with_replacement(range(first, n_mut + 1), k):
         for ks in itertools.product(kinds, repeat=k):
             yield tuple(zip(pos, ks))
 
@@ -89,9 +96,9 @@ def weave(muts, plc):
 
 
 class HistFamily(Family):
-    def __init__(self, L, k, kinds=OBS_KINDS):
-        self.L, self.k, self.kinds = L, k, tuple(kinds)
-        self.name = 'H(L=%d,k=%d)' % (L, k)
+    def __init__(self, L, k, kinds=OBS_KINDS, prelude=()):
+        self.L, self.k, self.kinds, self.prelude = L, k, tuple(kinds), tuple(prelude)
+        self.name = 'H(L=%d,k=%d)%s' % (L, k, '+prelude' if prelude else '')
         self.rule = ('all mutation sequences of length exactly %d over the alphabet of mc/props/c03.py, each with every placement of exactly %d '
                      'observations (kinds %s) after any mutation; plus the 0-observation reference run per sequence; '
                      'non-trivial = the reference circuit lists at least two operations' % (L, k, ','.join(kinds)))
@@ -99,22 +106,25 @@ class HistFamily(Family):
         self._ref = None
 
     def shards(self, tier):
-        first = enabled([])
+        pre = list(self.prelude)
+        first = enabled(pre)
         if self.L == 1:
             return [(None, None)]
-        second = {f: enabled([f]) for f in first}
+        second = {f: enabled(pre + [f]) for f in first}
         if self.L == 2:
             return [(f, None) for f in first]
         return [(f, s) for f in first for s in second[f]]
 
     def cases(self, tier, shard):
         f, s = shard
-        for muts in mutation_sequences(self.L):
-            if f is not None and muts[0] != f:
+        n0 = len(self.prelude)
+        for muts in mutation_sequences(self.L, self.prelude):
+            if f is not None and muts[n0] != f:
                 continue
-            if s is not None and muts[1] != s:
+            if s is not None and muts[n0 + 1] != s:
                 continue
-            for plc in placements(len(muts), self.k, self.kinds):
+            # with a prelude (a non-initial start state) observations are placed after the prelude or later
+            for plc in placements(len(muts), self.k, self.kinds, first=max(1, n0)):
                 yield (muts, plc)
 
     def describe(self, tier):
@@ -186,8 +196,8 @@ def run(events):
 
 def families(tier):
     if tier == 'quick':
-        return [HistFamily(1, 1), HistFamily(2, 1), HistFamily(3, 1), HistFamily(2, 2)]
-    return [HistFamily(1, 1), HistFamily(2, 1), HistFamily(3, 1), HistFamily(2, 2), HistFamily(4, 1), HistFamily(3, 2)]
+        return [HistFamily(1, 1), HistFamily(2, 1), HistFamily(3, 1), HistFamily(2, 2), HistFamily(2, 1, prelude=PRELUDE)]
+    return [HistFamily(1, 1), HistFamily(2, 1), HistFamily(3, 1), HistFamily(2, 2), HistFamily(4, 1), HistFamily(3, 2), HistFamily(2, 2, prelude=PRELUDE), HistFamily(3, 1, prelude=PRELUDE)]
 
 
 def signature(f):
